@@ -770,6 +770,45 @@ theorem C13_checkLoad_spec (fs : Fs) (importer url : Path) (lps : List Path) (fi
       (load .spec fs importer url lps fi).2 = true :=
   checkLoad_model .spec fs importer url lps fi
 
+/-- **history independence**: the stylesheet cache of `import_like_node` never changes *which*
+    file a URL resolves to — whatever was loaded before, the outcome is that of the stateless
+    search, and the calls are the same except that the read may be dropped. -/
+theorem C13_cache_does_not_change_the_result (af : AsFound) (fs : Fs) (lps : List Path) (st : Cache)
+    (importer url : Path) (fi : Bool) :
+    (loadC af fs lps st importer url fi).1.1 = (load af fs importer url lps fi).1 ∧
+    ((loadC af fs lps st importer url fi).1.2 = (load af fs importer url lps fi).2 ∨
+     (loadC af fs lps st importer url fi).1.2 = (trace af fs importer url lps fi).map .probe) := by
+  unfold loadC load trace
+  cases h : (resolveLocs fs (locations af importer url lps fi)).1 with
+  | none => simp [h]
+  | some p => cases hc : st.cached.contains p <;> simp_all
+
+/-- … and the predicate also holds of the cached variant's calls. -/
+theorem C13_checkLoad_cached (fs : Fs) (lps : List Path) (st : Cache) (importer url : Path) (fi : Bool) :
+    checkLoad .spec fs importer url lps fi (resolve .spec fs importer url lps fi)
+      (loadC .spec fs lps st importer url fi).1.2 = true := by
+  rcases (C13_cache_does_not_change_the_result .spec fs lps st importer url fi).2 with h | h
+  · rw [h]; exact checkLoad_model .spec fs importer url lps fi
+  · rw [h]
+    unfold checkLoad
+    have hconf := C13_confinement .spec fs importer url lps fi
+    simp only [decide_true, Bool.true_and, Bool.and_eq_true, List.all_eq_true, decide_eq_true_eq]
+    constructor
+    · intro c hc
+      simp only [List.mem_map] at hc
+      obtain ⟨q, hq, rfl⟩ := hc
+      simpa using hconf q hq
+    · have : ∀ (l : List Probe), (l.filter (fun _ => false)).length = 0 := by
+        intro l; induction l <;> simp_all
+      simp [List.filter_map, Function.comp_def, this]
+
+/-- a cached stylesheet: the search still runs (three probes), the read is dropped -/
+example : (loadC .spec (fsOf [[['s'], ['c', '.', 's', 'c', 's', 's']]] []) []
+    ⟨[], [[['s'], ['c', '.', 's', 'c', 's', 's']]]⟩ [['s'], ['a']] [['c']] false).1 =
+    (.loaded [['s'], ['c', '.', 's', 'c', 's', 's']] .scss,
+     [.probe (.isFile [['s'], ['c', '.', 's', 'a', 's', 's']]), .probe (.isFile [['s'], ['_', 'c', '.', 's', 'a', 's', 's']]),
+      .probe (.isFile [['s'], ['c', '.', 's', 'c', 's', 's']])]) := by decide
+
 /-- Conversely `checkLoad .spec` pins the outcome: an observation that passes loaded exactly
     what the specified search resolves to and read nothing else. -/
 theorem C13_checkLoad_sound (fs : Fs) (importer url : Path) (lps : List Path) (fi : Bool)
